@@ -427,8 +427,8 @@ long long c_accumulate(long long nrows, long long ncols,
                 break;
             }
 
-            /* Get accumulated value */
-            accvalue = to_accumulate[idxdown[0]];
+            /* Get accumulated value (from the cell where the path starts) */
+            accvalue = to_accumulate[i];
 
             /* Increase flow accumulation at downstream cell */
             accumulation[idxdown[0]] += accvalue;
